@@ -101,7 +101,7 @@ func TestC02(t *testing.T) {
 		prop: "C02", part: "programs",
 		rule: "random programs of nested if/else-if/else, while/for, foreach (array, string, hash, range; with/without index), switch (literal, expression, regexp, lists, default anywhere), ternary, return, with trace() calls; compared with the reference interpreter on result, host-call sequence and resulting variables; non-trivial = >=2 branch decisions of which >=1 inside a loop body or switch arm; distinct by program text + inputs",
 		opts: func() gen.ProgOpts {
-			return gen.ProgOpts{Depth: scale(3, 4), Block: scale(3, 4), Clash: true, Ternary: true, Switch: true, EarlyRet: true, IncDec: false, NoSqrtFold: true, StringIter: true}
+			return gen.ProgOpts{Depth: scale(3, 4), Block: scale(3, 4), Clash: true, Ternary: true, Switch: true, EarlyRet: true, IncDec: true, PoolShift: true, NoSqrtFold: true, StringIter: true}
 		},
 		nontrivial: func(m *lang.Machine, c *Case) bool { return m.Stats.Branches >= 2 && m.Stats.BranchInLoop >= 1 },
 	})
